@@ -1,0 +1,185 @@
+//! Verification hooks (cargo feature `verif-hooks`, off by default).
+//!
+//! Nothing in this module changes what the library computes. It offers:
+//! - a thread-local *event sink*: the library reports decisions it takes
+//!   (noise calibration, thresholds, rule selection...) as [`Event`]s, an external
+//!   monitor installs a sink, runs some entry point and reads the events back;
+//! - a thread-local *work counter* ([`tick`]) with an optional budget, so that a monitor
+//!   can bound the work of one call in logical steps rather than in wall-clock time;
+//! - an optional *yield point* used to perturb thread schedules around shared state.
+use std::cell::{Cell, RefCell};
+
+/// A field of an event
+#[derive(Clone, Debug, PartialEq)]
+pub enum Field {
+    F(f64),
+    I(i64),
+    B(bool),
+    S(String),
+    L(Vec<String>),
+}
+
+impl From<f64> for Field {
+    fn from(v: f64) -> Self {
+        Field::F(v)
+    }
+}
+impl From<i64> for Field {
+    fn from(v: i64) -> Self {
+        Field::I(v)
+    }
+}
+impl From<usize> for Field {
+    fn from(v: usize) -> Self {
+        Field::I(v as i64)
+    }
+}
+impl From<u64> for Field {
+    fn from(v: u64) -> Self {
+        Field::I(v as i64)
+    }
+}
+impl From<bool> for Field {
+    fn from(v: bool) -> Self {
+        Field::B(v)
+    }
+}
+impl From<&str> for Field {
+    fn from(v: &str) -> Self {
+        Field::S(v.to_string())
+    }
+}
+impl From<String> for Field {
+    fn from(v: String) -> Self {
+        Field::S(v)
+    }
+}
+impl From<Vec<String>> for Field {
+    fn from(v: Vec<String>) -> Self {
+        Field::L(v)
+    }
+}
+
+/// Something the library decided
+#[derive(Clone, Debug, PartialEq)]
+pub struct Event {
+    pub kind: &'static str,
+    pub fields: Vec<(&'static str, Field)>,
+}
+
+impl Event {
+    pub fn get(&self, name: &str) -> Option<&Field> {
+        self.fields.iter().find(|(n, _)| *n == name).map(|(_, f)| f)
+    }
+    pub fn f64(&self, name: &str) -> Option<f64> {
+        match self.get(name)? {
+            Field::F(v) => Some(*v),
+            Field::I(v) => Some(*v as f64),
+            _ => None,
+        }
+    }
+    pub fn i64(&self, name: &str) -> Option<i64> {
+        match self.get(name)? {
+            Field::I(v) => Some(*v),
+            _ => None,
+        }
+    }
+    pub fn bool(&self, name: &str) -> Option<bool> {
+        match self.get(name)? {
+            Field::B(v) => Some(*v),
+            _ => None,
+        }
+    }
+    pub fn str(&self, name: &str) -> Option<&str> {
+        match self.get(name)? {
+            Field::S(v) => Some(v.as_str()),
+            _ => None,
+        }
+    }
+    pub fn list(&self, name: &str) -> Option<&[String]> {
+        match self.get(name)? {
+            Field::L(v) => Some(v.as_slice()),
+            _ => None,
+        }
+    }
+}
+
+thread_local! {
+    static SINK: RefCell<Option<Vec<Event>>> = RefCell::new(None);
+    static TICKS: Cell<u64> = Cell::new(0);
+    static BUDGET: Cell<u64> = Cell::new(u64::MAX);
+    static YIELDS: Cell<u32> = Cell::new(0);
+}
+
+/// Start recording events on this thread (drops what was recorded before)
+pub fn install_sink() {
+    SINK.with(|s| *s.borrow_mut() = Some(vec![]));
+}
+
+/// Stop recording and return what was recorded
+pub fn take_events() -> Vec<Event> {
+    SINK.with(|s| s.borrow_mut().take().unwrap_or_default())
+}
+
+/// Is a sink installed on this thread
+pub fn recording() -> bool {
+    SINK.with(|s| s.borrow().is_some())
+}
+
+/// Record an event (no-op without a sink)
+pub fn emit(kind: &'static str, fields: Vec<(&'static str, Field)>) {
+    SINK.with(|s| {
+        if let Some(events) = s.borrow_mut().as_mut() {
+            events.push(Event { kind, fields });
+        }
+    });
+}
+
+/// The payload of the panic raised when the work budget is exhausted
+#[derive(Clone, Debug)]
+pub struct BudgetExceeded {
+    pub site: &'static str,
+    pub ticks: u64,
+}
+
+/// Reset the work counter and set the budget of this thread
+pub fn set_budget(budget: u64) {
+    TICKS.with(|t| t.set(0));
+    BUDGET.with(|b| b.set(budget));
+}
+
+/// Work done on this thread since the last `set_budget`
+pub fn ticks() -> u64 {
+    TICKS.with(|t| t.get())
+}
+
+/// Count `n` units of work at `site`
+pub fn tick_n(site: &'static str, n: u64) {
+    let ticks = TICKS.with(|t| {
+        let v = t.get().saturating_add(n);
+        t.set(v);
+        v
+    });
+    if ticks > BUDGET.with(|b| b.get()) {
+        // Disarm so that unwinding code does not raise again
+        BUDGET.with(|b| b.set(u64::MAX));
+        std::panic::panic_any(BudgetExceeded { site, ticks });
+    }
+}
+
+/// Count one unit of work at `site`
+pub fn tick(site: &'static str) {
+    tick_n(site, 1)
+}
+
+/// Ask for `n` `yield_now` at each yield point of this thread (0 disables)
+pub fn set_yields(n: u32) {
+    YIELDS.with(|y| y.set(n));
+}
+
+/// A point where another thread may be scheduled (used before taking shared locks)
+pub fn yield_point() {
+    for _ in 0..YIELDS.with(|y| y.get()) {
+        std::thread::yield_now();
+    }
+}
